@@ -352,7 +352,7 @@ class FragGen:
     """one random fragment.  flavour "cedar": only the reference forms the Cedar syntax can express (so the
        fragment can be written in both syntaxes by the Python printers); flavour "json": all JSON forms."""
 
-    def __init__(self, rng, flavour, odd=0.25, annotations=True):
+    def __init__(self, rng, flavour, odd=0.35, annotations=True):
         self.r = r = rng
         self.flavour = flavour
         self.odd = odd
